@@ -72,6 +72,8 @@ def _helper_guard(c, helpers, fd):
 
 
 def run(ck, m):
+    from rules.common import rule_memo_safety
+    rule_memo_safety(ck, m, "MEMO", "C13")          # first: a memoised helper also hides the code it wraps from the rules below
     helpers = _protecting_helpers(m)
     sites = []
     for rel, q, fn in m.functions():
@@ -196,8 +198,6 @@ def run(ck, m):
     ck.extra["modifying_calls"] = n_modify
     ck.extra["restoring_calls"] = n_restore
 
-    from rules.common import rule_memo_safety
-    rule_memo_safety(ck, m, "MEMO", "C13")
 
 
 U, R = "utils.py", "renderable/_renderable.py"
